@@ -50,10 +50,18 @@ func replayValSet() *tmtypes.ValidatorSet {
 	return tmtypes.NewValidatorSet([]*tmtypes.Validator{tmtypes.NewValidator(pubKey, 1)})
 }
 
+// node-local configuration of a replaying process (never part of consensus): how often x/crisis asserts the registered
+// invariants in EndBlock, and whether it asserts them at InitChain
+var replayInvCheckPeriod = uint(0)
+var replaySkipGenesisInvariants = false
+
 func openApp(db dbm.DB, home string) *app.App {
 	opts := make(simtestutil.AppOptionsMap, 0)
 	opts[flags.FlagHome] = home
-	opts[server.FlagInvCheckPeriod] = uint(0)
+	opts[server.FlagInvCheckPeriod] = replayInvCheckPeriod
+	if replaySkipGenesisInvariants {
+		opts["x-crisis-skip-assert-invariants"] = true
+	}
 	if tf := os.Getenv("VH_TRACE"); tf != "" {
 		f, _ := os.OpenFile(tf, os.O_CREATE|os.O_WRONLY|os.O_APPEND, 0o644)
 		fmt.Fprintln(f, "=== openApp")
@@ -70,7 +78,10 @@ func cmdReplay(args []string) {
 	dir := fs.String("dir", "", "database directory (goleveldb)")
 	crash := fs.Bool("crash", false, "drop and reopen the application at the recorded crash points")
 	delay := fs.Int("delay-ms", 0, "sleep before starting (wall-clock offset)")
+	inv := fs.Uint("inv-check-period", 0, "x/crisis invariant check period of this node (node-local configuration)")
+	skipInv := fs.Bool("skip-genesis-invariants", false, "x-crisis-skip-assert-invariants of this node (node-local configuration)")
 	fs.Parse(args)
+	replayInvCheckPeriod, replaySkipGenesisInvariants = *inv, *skipInv
 	time.Sleep(time.Duration(*delay) * time.Millisecond)
 	var tf twinFile
 	bz, err := os.ReadFile(*in)
@@ -270,9 +281,9 @@ func cmdTwin(args []string) {
 		}
 		dbDir := filepath.Join(*out, fmt.Sprintf("twin_%d_leveldb", i))
 		runs := []run{
-			{"second process, goleveldb, GOMAXPROCS=1, started 1.1 s later", []string{"-backend", "goleveldb", "-dir", dbDir, "-delay-ms", "1100"}, []string{"GOMAXPROCS=1"}},
+			{"second process, goleveldb, GOMAXPROCS=1, started 1.1 s later", []string{"-backend", "goleveldb", "-dir", dbDir, "-delay-ms", "1100", "-inv-check-period", "3", "-skip-genesis-invariants"}, []string{"GOMAXPROCS=1"}},
 			{"process with crash + reopen at the chosen points, goleveldb", []string{"-backend", "goleveldb", "-dir", dbDir + "_crash", "-crash"}, []string{"GOMAXPROCS=4"}},
-			{"third process, memdb, crash + reopen is not possible on memdb: plain replay", []string{"-backend", "memdb"}, nil},
+			{"third process, memdb, crash + reopen is not possible on memdb: plain replay; crisis invariants asserted every block", []string{"-backend", "memdb", "-inv-check-period", "1"}, nil},
 		}
 		for ri, rn := range runs {
 			outPath := filepath.Join(*out, fmt.Sprintf("twin_%d_run%d.json", i, ri))
@@ -305,7 +316,7 @@ func cmdTwin(args []string) {
 	}
 	writeJSON(filepath.Join(*out, "stats_twin.json"), map[string]interface{}{
 		"files": []string{}, "evaluations": totalBlocks * 3, "distinct_nontrivial": *n,
-		"rule":         "each random history (all custom message types, failing and panicking transactions, governance) is executed in the generating process (memdb) and replayed from the recorded transaction bytes in three further processes: goleveldb with GOMAXPROCS=1 started 1.1 s later; goleveldb with the application object dropped and reopened at the chosen crash points (after BeginBlock, after the k-th DeliverTx, after EndBlock, after Commit) and the interrupted block replayed; memdb. Compared: app hash per height, (code, codespace, data, gas wanted, gas used) per transaction, height and hash after every reopen. evaluations = block executions compared",
+		"rule":         "each random history (all custom message types, failing and panicking transactions, governance) is executed in the generating process (memdb) and replayed from the recorded transaction bytes in three further processes: goleveldb with GOMAXPROCS=1 started 1.1 s later and a different node-local x/crisis configuration (invariants every 3 blocks, none at InitChain); goleveldb with the application object dropped and reopened at the chosen crash points (after BeginBlock, after the k-th DeliverTx, after EndBlock, after Commit) and the interrupted block replayed; memdb. Compared: app hash per height, (code, codespace, data, gas wanted, gas used) per transaction, height and hash after every reopen. evaluations = block executions compared",
 		"distribution": map[string]interface{}{"histories": *n, "blocks": totalBlocks, "txs": totalTxs, "crash_points": crashPoints, "reopens": reopens, "by_message_kind": kinds, "by_result_class": results, "events": events},
 		"samples":      samples, "go_monitor_failures": failures,
 	})
